@@ -690,6 +690,59 @@ def check_widths(ctx: Context, rule: str, total: int = 40) -> None:
                                   f"`{t} {d.get('name')}` accumulates binomial weights up to {bound} (needs {bits} bits; C(18,9)^2 already "
                                   f"exceeds 2^31) but has {tb[0] if tb else '?'} bits", f"{t} {d.get('name')}")
     ctx.require_floor("binomial-weight carriers and instantiations", n_sites, 4)
+    # powers of two computed with `<<`: the exponents here (sum of multiplicities, number of terms) reach `total`,
+    # so a shift whose promoted left operand has fewer than total+2 bits overflows (undefined behaviour)
+    def _tname(n):
+        ty = n.get("type", {})
+        return ty.get("desugaredQualType") or ty.get("qualType", "?")
+
+    def shifts(body, default_line):
+        for n in walk(body):
+            if n.get("kind") in ("BinaryOperator", "CompoundAssignOperator") and n.get("opcode") in ("<<", "<<="):
+                cnt = strip(n["inner"][1])
+                if isinstance(cnt, dict) and cnt.get("kind") == "IntegerLiteral":
+                    tb_ = type_bits(_tname(n))
+                    if tb_ is not None and int(cnt.get("value", "0")) < tb_[0] - 1:
+                        continue
+                yield n, type_bits(_tname(n)), _tname(n)
+
+    fixture = os.path.join(STUBS, "shift_fixture.cpp")
+    fired = {"narrow_shift": 0, "wide_shift": 0}
+    for nm in fired:
+        for o in dump(fixture, nm, STUBS):
+            for f_ in walk(o):
+                if f_.get("kind") == "FunctionDecl" and f_.get("name") == nm:
+                    for n, tb, t in shifts(f_, 0):
+                        if tb is None or tb[0] < total + 2:
+                            fired[nm] += 1
+    if fired != {"narrow_shift": 1, "wide_shift": 0}:
+        raise AnalysisError(f"{rule}: the shift rule does not behave on its fixture ({fired}); the C++ width rules are not decided")
+    n_shift = 0
+    for fname in sorted(os.listdir(src)):
+        if not fname.endswith((".cpp", ".hpp")) or fname.startswith("main"):
+            continue
+        path = os.path.join(src, fname)
+        text = open(path).read()
+        if "<<" not in re.sub(r"(std::)?(cout|cerr|ostream|stringstream)[^;]*;", "", text):
+            continue
+        for fn_name in function_names(path):
+            for o in dump(path, fn_name, src):
+                for f_ in walk(o):
+                    if f_.get("kind") in ("FunctionDecl", "CXXMethodDecl") and f_.get("name") == fn_name:
+                        fd = FunctionDecl(f_, path)
+                        if fd.body is None or fd.dependent():
+                            continue
+                        for n, tb, t in shifts(fd.body, fd.line):
+                            n_shift += 1
+                            ok = tb is not None and tb[0] >= total + 2
+                            key = f"src/{fname}:{fn_name}|shift:{t}"
+                            ctx.instance(rule, key, "ok" if ok else "VIOLATION", f"src/{fname}:{line_of(n, fd.line)}")
+                            if not ok:
+                                ctx.violation(rule, key, path, line_of(n, fd.line),
+                                              f"`<<` is evaluated in `{t}` ({tb[0] if tb else '?'} bits) with a run-time shift count: the exponents of the "
+                                              f"kernels (sums of multiplicities) reach {total}, and shifting a {tb[0] if tb else '?'}-bit integer by that much "
+                                              f"overflows (undefined behaviour; in practice a wrong or zero denominator)", f"<< in {t}")
+    ctx.count("run-time shifts in the native kernels", n_shift)
 
 
 # ---------------------------------------------------------------------------------------------- (c) OpenMP loops
